@@ -203,7 +203,7 @@ def run_unit_once(unit, repo=vgen.REPO, rlimit=None, use_cache=True, keep=None, 
         r = region_of(line) if line else None
         # a postcondition declared on a TRAIT method that fails for one implementation is reported at the
         # trait's ensures clause; the implementation (secondary span) is the function under contract
-        if r is not None and r.name.startswith('trait '):
+        if r is not None and (r.name or '').startswith('trait '):
             for sp in d.get('spans', []):
                 if not sp.get('is_primary') and sp.get('line_start'):
                     r2 = region_of(sp['line_start'])
